@@ -91,7 +91,17 @@ def check(ctx: Ctx, col: Collector, tier: str) -> None:
             if isinstance(n, ast.Call) and ast.unparse(n.func) in ("math.isfinite", "math.isinf", "math.isnan", "isfinite", "isinf"):
                 finite_tests.append(f"{q}:{n.lineno}")
     strict = any(e.kind == "call" and any(k == "allow_nan" and v == Const(False) for k, v in e.kwargs) for o in jouts for e in o.effects if e.target in ("json.dump", "json.dumps"))
-    okk = bool(finite_tests) or strict
+    # ... and on the path where the float is not finite the value handed on is not that float
+    leaks = []
+    if finite_tests and not strict:
+        vfi = repo.function(VISITOR, f"{VCLS}._get_parameter_type_and_default_value")
+        vit = ctx.interp(vfi, inline={"mypy_expression_to_python_value"})
+        fouts = vit.run_function(vfi, {"self": Sym("self"), "initializer": Obj("FloatExpr", (("value", Sym("v", "float")),)), "function_id": Sym("function_id")})
+        for o in fouts:
+            nonfinite = any(("isfinite" in k and fv is False) or (("isinf" in k or "isnan" in k) and fv is True) for k, fv in o.facts)
+            if o.kind == "return" and nonfinite and isinstance(o.value, ListV) and o.value.items and o.value.items[0] == Sym("v", "float"):
+                leaks.append(o)
+    okk = (bool(finite_tests) and not leaks) or strict
     (col.ok if okk else col.bad)("C12.STORES", f"{API_MOD}::API.to_json_file::finite-floats", repo.loc(API_MOD, jfi.node),
                                  f"non-finite float defaults are recognised ({finite_tests[:2]})" if finite_tests else ("json.dump rejects non-finite floats" if strict else "float defaults reach json.dump unchecked; allow_nan is left on"),
                                  *([] if okk else ["a float default that overflows (`def clip(x: float, upper: float = 1e999)`) is stored as inf and written as `\"default_value\": Infinity`: "
